@@ -27,10 +27,11 @@ func New(seed int64) *G {
 	return &G{
 		R: rand.New(rand.NewSource(seed)),
 		// names sharing a prefix, names with '-' and digits; values that are long, repetitive, contain a tab, or are numbers
-		// outside the exact model (skipped by the validators when used numerically)
+		// outside the exact model (skipped by the validators when used numerically).  ASCII only: the string functions are
+		// claimed for ASCII arguments (C09); non-ASCII white space appears only in NumLookDoc, under numeric comparisons
 		Elems: []string{"a", "b", "c", "ab", "a-1"},
 		Attrs: []string{"a", "b", "id", "ab"},
-		Texts: []string{"1", "2", "10", "0.5", "x", "ab", " 1 ", "-3", "t", "abababab", "aaaa", "a\tb", "0.1", "\u00a07", "\f7", "7\u2003",
+		Texts: []string{"1", "2", "10", "0.5", "x", "ab", " 1 ", "-3", "t", "abababab", "aaaa", "a\tb", "0.1",
 			"the quick brown fox jumps over the lazy dog 0123456789"},
 	}
 }
@@ -143,7 +144,7 @@ func (g *G) wideDoc() *vdoc.Doc {
 // padded with other Unicode white space or controls (NaN), signs, exponents, separators.
 func (g *G) NumLookDoc(max int) *vdoc.Doc {
 	saved := g.Texts
-	g.Texts = []string{"7", " 7", "7 ", "\t7\n", "\u00a07", "7\u00a0", "\f7", "7\u2003", "\v7", "+7", "7.", ".7", "7e0", "0x7", "7,0", "07", "-7", "- 7", "7-", ""}
+	g.Texts = []string{"7", " 7", "7 ", "\t7\n", "\u00a07", "7\u00a0", "7\u2003", "\u20037", "+7", "7.", ".7", "7e0", "0x7", "7,0", "07", "-7", "- 7", "7-", ""}
 	d := g.Doc(max)
 	g.Texts = saved
 	return d
